@@ -119,12 +119,16 @@ _QCACHE = {}
 FIELDS = ["x", "y", "z", "c", "flag"]
 
 
-def expr_rec(e, rec):
+def expr_rec(e, rec, consts=None):
     """the expression as Python source over a record of the given representation:
-    tuple d[i], dict d["x"], attribute d.x, scalar x (field 0 only), or bare names (string form)"""
+    tuple d[i], dict d["x"], attribute d.x, scalar x (field 0 only), or bare names (string form);
+    consts: a list that receives the constants, which are then written as the names _K0, _K1, ..."""
     t = e[0]
     if t == "vec":
         return "(" + ", ".join(expr_rec(["f", i], rec) for i in e[1:]) + ",)"
+    if t == "c" and consts is not None:
+        consts.append(float(e[1]))
+        return "_K%d" % (len(consts) - 1)
     if t == "f":
         n = FIELDS[e[1]]
         return {"tuple": "d[%d]" % e[1], "dict": 'd["%s"]' % n, "attr": "d.%s" % n,
@@ -134,7 +138,7 @@ def expr_rec(e, rec):
         assert float(repr(float(e[1]))) == float(e[1])
         return "(%r)" % float(e[1]) if rec == "names" else "float.fromhex(%r)" % float(e[1]).hex()
     if t in "+-*<":
-        return "(%s %s %s)" % (expr_rec(e[1], rec), t, expr_rec(e[2], rec))
+        return "(%s %s %s)" % (expr_rec(e[1], rec, consts), t, expr_rec(e[2], rec, consts))
     raise ValueError(e)
 
 
@@ -146,6 +150,14 @@ def mk_src(form, e, rec, fname="myfn"):
     body = expr_rec(e, rec)
     env = {"float": float}
     if form == "def":
+        exec("def %s(%s):\n    return %s\n" % (fname, arg, body), env)
+        return env[fname]
+    if form == "defg":
+        # a def whose constants are module-level globals _K0, _K1, ... of its defining namespace
+        # (pickling has to carry the referenced globals, separately for every function)
+        consts = []
+        body = expr_rec(e, rec, consts)
+        env.update({"_K%d" % j: v for j, v in enumerate(consts)})
         exec("def %s(%s):\n    return %s\n" % (fname, arg, body), env)
         return env[fname]
     if form == "lamd":
@@ -498,8 +510,12 @@ class Machine:
             return [0] + snap(a)
         if t == "fill":
             a = p[op[1]]
+            self._fills = getattr(self, "_fills", 0) + 1
             try:
-                a.fill(tuple(op[2]), op[3])
+                if op[3] == 1.0 and not isinstance(op[3], bool) and self._fills % 2 == 0:
+                    a.fill(tuple(op[2]))          # the default weight (1.0) of the public signature
+                else:
+                    a.fill(tuple(op[2]), op[3])
                 r = 0
             except Exception as e:  # noqa: BLE001
                 self.exc.append(exc_class(e))
@@ -613,8 +629,15 @@ class Machine:
                 data = tuple(cols)
             wa = np.array(w, dtype=float) if isinstance(w, list) else w
             wb = wa.copy() if isinstance(w, list) else None
+            self._npfills = getattr(self, "_npfills", 0) + 1
             try:
-                a.fill.numpy(data, wa)
+                # an isolated Count is not specialised (no fill.numpy): its vectorised fill is the
+                # public Container.fillnumpy
+                npfill = a.fillnumpy if type(a).__name__ == "Count" else a.fill.numpy
+                if not isinstance(w, list) and w == 1.0 and self._npfills % 2 == 0:
+                    npfill(data)                  # default weights
+                else:
+                    npfill(data, wa)
                 r = 0
             except Exception as e:  # noqa: BLE001
                 self.exc.append(exc_class(e))
@@ -751,7 +774,7 @@ def dfhist(m, op):
     _, cols, dtypes, specs, rows, extra = op
     key = ":".join(cols)
     allcols = extra.get("columns", cols)
-    df = dfspec.frame(rows, allcols, dtypes)
+    df = dfspec.frame(rows, allcols, dtypes, extra.get("ts_unit", "ns"))
     before = df.copy(deep=True)
     call_specs = list(specs)
     bs = {}
@@ -925,6 +948,18 @@ class PruneMachine(Machine):
     prunes = True
 
 
+def wide_sparse(h, limit=200000):
+    """does the tree contain a SparselyBin whose filled indexes span more than `limit` bins?"""
+    try:
+        if getattr(h, "name", "") == "SparselyBin":
+            ks = list(h.bins.keys())
+            if ks and max(ks) - min(ks) > limit:
+                return True
+        return any(wide_sparse(c, limit) for c in list(fixed_children(h)) + list(sparse_children(h)))
+    except Exception:  # noqa: BLE001
+        return True
+
+
 class IdMachine(Machine):
     """like Machine, and after every op also observes the identity partition of the whole pool
     and the snapshots of all entries (for the non-interference oracle)"""
@@ -945,10 +980,14 @@ class IdMachine(Machine):
             # read-only operations: ==, !=, hash, repr, toJson and the read accessors; what they return is
             # not compared here (C09/C04/C13 do that): the frame oracle checks that nothing changed
             a, b = self.pool[op[1]], self.pool[op[2]]
-            for f in (lambda: a == b, lambda: a != b, lambda: hash(a), lambda: repr(a), lambda: a.toJson(),
-                      lambda: a.toJsonString(), lambda: a.children, lambda: a.num_bins(), lambda: a.bin_edges(),
-                      lambda: a.bin_entries(), lambda: a.bin_centers(), lambda: a.mpv, lambda: a.n_dim,
-                      lambda: a.project_on_x(), lambda: a.xy_ranges_grid(), lambda: a.zero(), lambda: a.copy()):
+            reads = [lambda: a == b, lambda: a != b, lambda: hash(a), lambda: repr(a), lambda: a.toJson(),
+                     lambda: a.toJsonString(), lambda: a.children, lambda: a.n_dim, lambda: a.zero(), lambda: a.copy()]
+            if not wide_sparse(a):
+                # (the range accessors of a SparselyBin allocate one array cell per index between the
+                # first and the last filled bin: gigabytes when two data are 1e9 bin widths apart)
+                reads += [lambda: a.num_bins(), lambda: a.bin_edges(), lambda: a.bin_entries(), lambda: a.bin_centers(),
+                          lambda: a.mpv, lambda: a.project_on_x(), lambda: a.xy_ranges_grid()]
+            for f in reads:
                 try:
                     f()
                 except Exception:  # noqa: BLE001
@@ -1013,7 +1052,11 @@ class FcnMachine(Machine):
             rec = op[4] if len(op) > 4 else "tuple"
             a = self.pool[op[1]]
             try:
-                a.fill(to_record(op[2], rec), op[3])
+                self._fills = getattr(self, "_fills", 0) + 1
+                if op[3] == 1.0 and not isinstance(op[3], bool) and self._fills % 2 == 0:
+                    a.fill(to_record(op[2], rec))
+                else:
+                    a.fill(to_record(op[2], rec), op[3])
                 r = 0
             except Exception as e:  # noqa: BLE001
                 self.exc.append(exc_class(e))
